@@ -90,6 +90,9 @@ sexp sexp_write_simple_object (sexp ctx, sexp self, sexp_sint_t n, sexp obj, sex
   sexp t, x;
   sexp_gc_var1(args);
   sexp_sint_t i, len, nulls=0;
+  /* reachable from Scheme through type-printer, so check the arguments */
+  sexp_assert_type(ctx, sexp_pointerp, SEXP_OBJECT, obj);
+  sexp_assert_type(ctx, sexp_oportp, SEXP_OPORT, out);
   i = sexp_pointer_tag(obj);
   sexp_write_char(ctx, '{', out);
   if (i >= sexp_context_num_types(ctx)) {
@@ -138,6 +141,8 @@ sexp sexp_write_uvector(sexp ctx, sexp self, sexp_sint_t n, sexp obj, sexp write
   sexp_uint_t i, len;
   char* str;
   sexp_gc_var2(f, tmp);
+  sexp_assert_type(ctx, sexp_uvectorp, SEXP_UNIFORM_VECTOR, obj);
+  sexp_assert_type(ctx, sexp_oportp, SEXP_OPORT, out);
   sexp_gc_preserve2(ctx, f, tmp);
   f = sexp_make_flonum(ctx, 0.0f);
   sexp_write_char(ctx, '#', out);
